@@ -975,6 +975,14 @@ func Concat(a, b *Term) *Term {
 	if a.IsConst() && a.Big == nil && a.C == 0 {
 		return ZExt(b, w)
 	}
+	// adjacent extracts of the same term merge: x[h:m+1] ++ x[m:l] = x[h:l]
+	if a.Op == "extract" && b.Op == "extract" && a.Args[0] == b.Args[0] && a.P2 == b.P1+1 {
+		return Extract(a.Args[0], a.P1, b.P2)
+	}
+	// (p ++ x[h:m+1]) ++ x[m:l]
+	if a.Op == "concat" && b.Op == "extract" && a.Args[1].Op == "extract" && a.Args[1].Args[0] == b.Args[0] && a.Args[1].P2 == b.P1+1 {
+		return Concat(a.Args[0], Extract(b.Args[0], a.Args[1].P1, b.P2))
+	}
 	return TS.mk(&Term{Op: "concat", S: SBV(w), Args: []*Term{a, b}})
 }
 
